@@ -345,9 +345,25 @@ func runTuple(t *engine.T, kr *kxRef, tp tuple, o options, keyPrefix string) {
 		if !bytes.Equal(uvA.Bytes(), uvB.Bytes()) {
 			t.Fail(keyPrefix+"/ecdh/SM2MQV/points-differ", "%s: U = %x, V = %x", ctx, uvA.Bytes(), uvB.Bytes())
 		}
-		keyA, errA := uvA.SM2SharedKey(false, o.klen, sA.PublicKey(), sB.PublicKey(), o.uidA, o.uidB)
-		keyB, errB := uvB.SM2SharedKey(true, o.klen, sB.PublicKey(), sA.PublicKey(), o.uidB, o.uidA)
-		t.Eval(2)
+		// record layouts: the initiator holds ownID||peerID, the responder peerID||ownID, each in one array with ample
+		// dirty slack behind it; the second pass reuses the same records (a second session from the same buffers)
+		iaOwn, iaPeer := adjacentUIDs(o.uidA, o.uidB)
+		rbPeer, rbOwn := adjacentUIDs(o.uidA, o.uidB)
+		var keyA, keyB []byte
+		for pass := 0; pass < 2; pass++ {
+			kA, eA2 := uvA.SM2SharedKey(false, o.klen, sA.PublicKey(), sB.PublicKey(), iaOwn, iaPeer)
+			kB, eB2 := uvB.SM2SharedKey(true, o.klen, sB.PublicKey(), sA.PublicKey(), rbOwn, rbPeer)
+			t.Eval(2)
+			if !bytes.Equal(iaOwn, o.uidA) || !bytes.Equal(iaPeer, o.uidB) || !bytes.Equal(rbPeer, o.uidA) || !bytes.Equal(rbOwn, o.uidB) {
+				t.Fail(keyPrefix+"/ecdh/SM2SharedKey/caller-memory-modified", "%s: an identity argument was modified by SM2SharedKey (record layout own||peer resp. peer||own, pass %d)", ctx, pass)
+				return
+			}
+			if pass == 1 && (!bytes.Equal(kA, keyA) || !bytes.Equal(kB, keyB) || (eA2 == nil) != (errA == nil) || (eB2 == nil) != (errB == nil)) {
+				t.Fail(keyPrefix+"/ecdh/SM2SharedKey/second-call-differs", "%s: the same call on the same buffers gives %x/%x, then %x/%x", ctx, keyA, keyB, kA, kB)
+				return
+			}
+			keyA, keyB, errA, errB = kA, kB, eA2, eB2
+		}
 		if errA != nil || errB != nil {
 			t.Fail(keyPrefix+"/ecdh/SM2SharedKey/error", "%s: %v / %v", ctx, errA, errB)
 			return
@@ -460,7 +476,7 @@ func adjacentUIDs(a, b []byte) ([]byte, []byte) {
 	if len(a) == 0 {
 		return a, b
 	}
-	rec := make([]byte, len(a)+len(b)+8)
+	rec := make([]byte, len(a)+len(b)+256) // ample dirty slack: any append the callee does lands in place
 	copy(rec, a)
 	copy(rec[len(a):], b)
 	for i := len(a) + len(b); i < len(rec); i++ {
